@@ -297,4 +297,19 @@ pub fn gen(rng: &mut Rng, tier: Tier, out: &mut Vec<String>) {
         let b2 = match rng.below(3) { 0 => a, 1 => f64::from_bits(a.to_bits() + 1 + rng.below(8) as u64), _ => f64::from_bits(a.to_bits().wrapping_sub(1 + rng.below(300) as u64)) };
         if a.is_finite() && b2.is_finite() && a != 0.0 { out.push(format!("vec_spaces {} {} {} {}", a.wr(), b2.wr(), n2, p.wr())); }
     }
+
+    // LONGER VECTORS (65 .. 300): chunked / unrolled loops with a remainder
+    for i in 0..(if tier == Tier::Quick { 10 } else { 250 }) {
+        let maxlen = *rng.pick(&[96usize, 130, 300]);
+        let nops = 1 + rng.below(12);
+        match i % 3 { 0 => out.push(gen_hist::<Q>(rng, nops, 4, maxlen)), 1 => out.push(gen_hist::<f64>(rng, nops, 4, maxlen)), _ => out.push(gen_hist::<Cmplx>(rng, nops.min(6), 4, maxlen.min(130))) }
+        let n = 60 + rng.below(240);
+        let p = *rng.pick(&[1.0f64, 2.0, 3.0]);
+        out.push(format!("vec_norms {} {} {} {}", gen_vec_str::<f64>(rng, n, 15, 0), gen_vec_str::<f64>(rng, n, 15, 0), f64::gen(rng, 5, 0).wr(), p.wr()));
+    }
+    // every length 0 .. 70: whole-range and inner-range sums and products of ones / small integers
+    for n in 0..=70usize { if tier == Tier::Quick && n > 24 && n % 2 == 1 && n % 8 != 7 { continue; }
+        let v: Vec<Q> = (0..n).map(|i| Q::int(1 + (i % 3) as i128 - if i % 7 == 0 { 2 } else { 0 })).collect();
+        out.push(format!("vec_hist q {} 5 sum sumslice 0 {} sumslice {} {} norm1 dot {}", wr_vec(&v), n.saturating_sub(1), n / 3, n.saturating_sub(1), wr_vec(&v)));
+    }
 }
